@@ -455,6 +455,32 @@ func execute(s *engine.Script, o *engine.Outcome) {
 			}
 		}
 	}
+	// Oracle 4: read-only calls leave no trace. Each call is repeated alone on
+	// yet another fresh instance of the same value: it must return the same
+	// result and execute the same number of statements. A different path the
+	// second time means the first execution remembered something — in the
+	// receiver's type, in package-level state, or somewhere the memory snapshot
+	// cannot follow (closures, sync.Map, atomics).
+	for id, calls := range tasks {
+		for ci, tc := range calls {
+			if tc.c.name == "@parse-again" {
+				continue // parsing is not one of the read-only operations (see below)
+			}
+			pv, tw := private(), private()
+			if !pv.IsValid() {
+				continue
+			}
+			schedCountOnly(true)
+			again, _ := safeCall(tc.c, pv, tw)
+			y := schedYields()
+			schedCountOnly(false)
+			if again != tc.want {
+				o.Violate("C18/result-differs-when-the-call-is-repeated/"+tc.c.name, "task %d call %d %s on a fresh %s: %s", id, ci, tc.c.name, vop.Struct, diff(tc.want, again))
+			} else if y != tc.yields {
+				o.Violate("C18/read-only-calls-left-a-trace/"+tc.c.name, "task %d call %d %s: executed %d statements on a fresh %s the first time and %d when repeated on another fresh instance of the same value", id, ci, tc.c.name, tc.yields, vop.Struct, y)
+			}
+		}
+	}
 	// schedule: permille positions -> absolute yield ordinals
 	var pts []point
 	for _, sp := range s.Sched {
